@@ -32,17 +32,24 @@ func init() {
 }
 
 type genCert struct {
-	der  []byte
-	key  *ecdsa.PrivateKey
-	spki []byte
+	der    []byte
+	key    *ecdsa.PrivateKey
+	spki   []byte
+	cn     string
+	serial *big.Int
 }
 
-func mkCert(cn string, parent *genCert, isCA bool) *genCert {
+func mkCert(cn string, parent *genCert, isCA bool) *genCert { return mkCertSerial(cn, parent, isCA, nil) }
+
+// mkCertSerial: like mkCert with a chosen serial number (an impostor copies the genuine certificate's name and serial, not its key).
+func mkCertSerial(cn string, parent *genCert, isCA bool, serial *big.Int) *genCert {
 	k, err := ecdsa.GenerateKey(elliptic.P256(), rand.Reader)
 	if nil != err {
 		panic(err)
 	}
-	serial, _ := rand.Int(rand.Reader, big.NewInt(1<<62))
+	if nil == serial {
+		serial, _ = rand.Int(rand.Reader, big.NewInt(1<<62))
+	}
 	t := &x509.Certificate{SerialNumber: serial, Subject: pkix.Name{CommonName: cn}, NotBefore: time.Now().Add(-time.Hour),
 		NotAfter: time.Now().Add(24 * time.Hour), KeyUsage: x509.KeyUsageDigitalSignature | x509.KeyUsageCertSign,
 		ExtKeyUsage: []x509.ExtKeyUsage{x509.ExtKeyUsageServerAuth}, BasicConstraintsValid: true, IsCA: isCA,
@@ -58,7 +65,7 @@ func mkCert(cn string, parent *genCert, isCA bool) *genCert {
 		panic(err)
 	}
 	c, _ := x509.ParseCertificate(der)
-	return &genCert{der: der, key: k, spki: c.RawSubjectPublicKeyInfo}
+	return &genCert{der: der, key: k, spki: c.RawSubjectPublicKeyInfo, cn: cn, serial: serial}
 }
 
 // pingenMain: writes a trusted CA certificate to <dir>/trusted.pem and its key, for a later "pin" run
@@ -72,6 +79,7 @@ func pingenMain(args []string) {
 }
 
 type pinServer struct {
+	leaf  *genCert
 	srv   *httptest.Server
 	hits  atomic.Int64
 	bytes atomic.Int64
@@ -121,13 +129,18 @@ func pinMain(args []string) {
 				var leaf *genCert
 				for k := 0; k < n; k++ {
 					var c *genCert
-					if 0 == k && true == sm["trusted"] && nil != ca {
+					if io, ok := sm["impostor_of"].(float64); ok && 0 == k && int(io) < len(servers) {
+						/* same name, same serial, (self-)issued the same way - but its own key */
+						g := servers[int(io)].leaf
+						c = mkCertSerial(g.cn, nil, false, g.serial)
+					} else if 0 == k && true == sm["trusted"] && nil != ca {
 						c = mkCert("localhost", ca, false)
 					} else {
 						c = mkCert(fmt.Sprintf("verif-%d-%d", len(servers), k), nil, k > 0)
 					}
 					if 0 == k {
 						leaf = c
+						ps.leaf = c
 					}
 					certs = append(certs, c.der)
 					ps.spkis = append(ps.spkis, c.spki)
@@ -160,7 +173,11 @@ func pinMain(args []string) {
 			srv := servers[num(m["srv"])]
 			fp := string(unhex(m["fp"]))
 			if kind, ok := m["kind"].(string); ok {
-				fp = mkFingerprint(kind, srv, servers[(num(m["srv"])+1)%len(servers)])
+				if "pin-of" == kind { /* the pin of ANOTHER server's key */
+					fp = pinOf(servers[num(m["of"])].spkis[0])
+				} else {
+					fp = mkFingerprint(kind, srv, servers[(num(m["srv"])+1)%len(servers)])
+				}
 			}
 			h0 := srv.hits.Load()
 			in, outr, eshell := simpleshell.NewEchoShell()
